@@ -4,6 +4,17 @@ use crate::case::Case;
 use crate::report::Ctx;
 
 pub mod arith;
+pub mod conv;
+pub mod fixedcap;
+pub mod hist;
+pub mod io;
+#[cfg(feature = "hooks")]
+pub mod prim;
+pub mod query;
+pub mod rel;
+pub mod shift;
+pub mod slice;
+pub mod text;
 
 pub struct PropDef {
     pub id: &'static str,
@@ -16,6 +27,22 @@ pub const PROPS: &[PropDef] = &[
     PropDef { id: "C01", run: arith::run, replay: arith::replay, required: arith::REQUIRED_C01 },
     PropDef { id: "C02", run: arith::run, replay: arith::replay, required: arith::REQUIRED_C02 },
     PropDef { id: "C04", run: arith::run, replay: arith::replay, required: arith::REQUIRED_C04 },
+    PropDef { id: "C03", run: hist::run, replay: hist::replay, required: hist::REQUIRED_C03 },
+    PropDef { id: "C05", run: shift::run, replay: shift::replay, required: shift::REQUIRED_C05 },
+    PropDef { id: "C06", run: shift::run, replay: shift::replay, required: shift::REQUIRED_C06 },
+    PropDef { id: "C07", run: hist::run, replay: hist::replay, required: hist::REQUIRED_C07 },
+    PropDef { id: "C08", run: slice::run, replay: slice::replay, required: slice::REQUIRED_C08 },
+    PropDef { id: "C09", run: rel::run, replay: rel::replay, required: rel::REQUIRED_C09 },
+    PropDef { id: "C10", run: rel::run, replay: rel::replay, required: rel::REQUIRED_C10 },
+    PropDef { id: "C11", run: conv::run, replay: conv::replay, required: conv::REQUIRED_C11 },
+    PropDef { id: "C12", run: conv::run, replay: conv::replay, required: conv::REQUIRED_C12 },
+    PropDef { id: "C13", run: io::run, replay: io::replay, required: io::REQUIRED_C13 },
+    PropDef { id: "C14", run: text::run, replay: text::replay, required: text::REQUIRED_C14 },
+    PropDef { id: "C15", run: text::run, replay: text::replay, required: text::REQUIRED_C15 },
+    PropDef { id: "C16", run: query::run, replay: query::replay, required: query::REQUIRED_C16 },
+    PropDef { id: "C17", run: query::run, replay: query::replay, required: query::REQUIRED_C17 },
+    PropDef { id: "C18", run: hist::run, replay: hist::replay, required: hist::REQUIRED_C18 },
+    PropDef { id: "C19", run: fixedcap::run, replay: fixedcap::replay, required: fixedcap::REQUIRED_C19 },
     PropDef { id: "C20", run: arith::run, replay: arith::replay, required: arith::REQUIRED_C20 },
 ];
 
